@@ -255,7 +255,9 @@ func (g *gen) analyseNil() {
 				if !isId || id.Name != "nil" || !info.Types[pair[1]].IsNil() {
 					continue
 				}
-				if _, isSlice := info.Types[pair[0]].Type.Underlying().(*types.Slice); !isSlice {
+				switch info.Types[pair[0]].Type.Underlying().(type) {
+				case *types.Slice, *types.Signature:
+				default:
 					continue
 				}
 				if o, el := g.pathObj(info, pair[0]); o != nil {
@@ -269,6 +271,28 @@ func (g *gen) analyseNil() {
 			return true
 		})
 	}
+}
+
+// nilDefault: what reading a nil value of this type outside a nil comparison yields: the empty slice; for a function, a
+// function that panics when it is called
+func (g *gen) nilDefault(t types.Type) string {
+	if sig, ok := t.Underlying().(*types.Signature); ok {
+		n := sig.Params().Len()
+		if n == 0 {
+			n = 1
+		}
+		return "(fun" + strings.Repeat(" _", n) + " => throw (Go.Fault.panic \"call of a nil function\"))"
+	}
+	return "[]"
+}
+
+func hasFuncField(st *types.Struct) bool {
+	for i := 0; i < st.NumFields(); i++ {
+		if _, ok := st.Field(i).Type().Underlying().(*types.Signature); ok {
+			return true
+		}
+	}
+	return false
 }
 
 // typeOfVar: the Lean type of a variable or field, with the Option wrappers its observed nil-ness asks for
